@@ -130,9 +130,7 @@ def url_keys(prog, rep):
         rep.undecided("URL-KEYS", fi.short, "$domain", f"unrecognised way of dropping the www. prefix: `{t[:100]}`", fi.loc(n))
 
 
-def category_choice(prog, rep):
-    rep.rule("PICK", "_pick_category = reduce(_pick_deepest_cat, matches-in-rule-order, ['Uncategorized']); _pick_deepest_cat(acc, new) returns new on len(new) >= len(acc) (non-strict: the later rule wins ties), else acc; categorize/tag collect matches with a comprehension over `classes` in order filtered by rule.match(e) only")
-    fi = prog.func("_pick_category")
+def _pick_via_reduce(prog, rep, fi):
     t = norm(fi.node.body[-1])
     ok = t == f"return reduce(_pick_deepest_cat, {fi.params[0]}, ['Uncategorized'])"
     rep.check(ok, "PICK", fi.short, "fold", "reduce(_pick_deepest_cat, tags, ['Uncategorized'])", f"`{t}` is not the left fold over the matches starting from ['Uncategorized']", fi.loc())
@@ -160,6 +158,43 @@ def category_choice(prog, rep):
         except NonAffine as ex:
             why = f"test not affine: {ex}"
     rep.check(ok, "PICK", fi.short, "deepest, later wins ties", f"{b} if len({b}) >= len({a}) else {a}", why, fi.loc())
+
+
+def category_choice(prog, rep):
+    rep.rule("PICK", "_pick_category = reduce(_pick_deepest_cat, matches-in-rule-order, ['Uncategorized']); _pick_deepest_cat(acc, new) returns new on len(new) >= len(acc) (non-strict: the later rule wins ties), else acc; categorize/tag collect matches with a comprehension over `classes` in order filtered by rule.match(e) only")
+    fi = prog.func("_pick_category")
+    tp = fi.params[0]
+    if not prog.has_func("_pick_deepest_cat"):
+        # the fold written out as a loop: acc = ['Uncategorized']; for c in tags: if len(c) >= len(acc): acc = c; return acc
+        from ..paths import summarize
+
+        rets = [n for n in walk_own(fi.node) if isinstance(n, ast.Return)]
+        loops = [n for n in fi.node.body if isinstance(n, ast.For)]
+        ok, why = False, "neither reduce(_pick_deepest_cat, ...) nor a single fold loop"
+        if len(rets) == 1 and isinstance(rets[0].value, ast.Name) and len(loops) == 1 and norm(loops[0].iter) == tp and isinstance(loops[0].target, ast.Name):
+            acc, cv = rets[0].value.id, loops[0].target.id
+            inits = [n for n in fi.node.body if isinstance(n, (ast.Assign, ast.AnnAssign)) and norm(n.targets[0] if isinstance(n, ast.Assign) else n.target) == acc]
+            init_ok = len(inits) == 1 and inits[0].value is not None and norm(inits[0].value) == "['Uncategorized']" and inits[0].lineno < loops[0].lineno
+            sums, _g = summarize(fi=None, body=loops[0].body, env=Env(fi, prog, inline_locals=False))
+            want_new = Lit(Form({f"len({acc})": 1, f"len({cv})": -1}), "<=")
+            ok = init_ok and bool(sums) and not any(isinstance(x, (ast.Break, ast.Continue, ast.Return)) for x in ast.walk(loops[0]))
+            why = "the accumulator does not start from ['Uncategorized']" if not init_ok else ""
+            for sm in sums:
+                took = any(isinstance(x, ast.Assign) and norm(x.targets[0]) == acc for x in sm.stmts)
+                newv = [norm(x.value) for x in sm.stmts if isinstance(x, ast.Assign) and norm(x.targets[0]) == acc]
+                if took:
+                    if newv != [cv] or want_new not in sm.lits:
+                        ok = False
+                        strict = Lit(Form({f"len({acc})": 1, f"len({cv})": -1}), "<") in sm.lits
+                        why = f"the pick is replaced by `{newv}` under {sorted(map(repr, sm.lits))}" + (": on equal depth the EARLIER rule wins (strict comparison); the property says the later rule wins ties" if strict else "")
+                else:
+                    if want_new.negate() not in sm.lits:
+                        ok = False
+                        why = f"a category is passed over under {sorted(map(repr, sm.lits))}, not exactly when it is shallower than the current pick"
+        rep.check(ok, "PICK", fi.short, "fold", "left fold over the matches from ['Uncategorized'], deeper-or-equal replaces", why, fi.loc())
+        rep.ok("PICK", fi.short, "deepest, later wins ties", "decided on the loop form above", fi.loc())
+    else:
+        _pick_via_reduce(prog, rep, fi)
     from ..trace import deep
 
     for fn, key, wrap in (("categorize", "$category", "_pick_category"), ("tag", "$tags", None)):
